@@ -56,6 +56,15 @@ CHECKS = {
              "executable model + reference encoder on generated inputs.",
         note=NOTE_COMMON + "Partial: write=spec and decode(encode g)=g are theorems only for the non-recursive types; the recursive cases are decided per explored input.",
     ),
+    "C04": dict(
+        technique="Lean 4 theorems about the reader model (totality by induction on fuel with a no-panic predicate; limit check before allocation; allocation bound; well-formedness invariant of the ring loop) + differential correspondence on mutated encodings with measured allocation",
+        text="C04_total: for every byte string, format, mode, limit setting the decoder model never panics. C04_limit1/2_rejects: a count above its limit yields "
+             "ErrGeometryTooLarge{level,n,limit} with the allocation counter untouched; C04_alloc_bound_coords1: with limit L a coordinate array reserves at "
+             "most 2*L*stride elements whatever the input claims; C04_lineString/polygon_wellFormed: every decoded LineString/Polygon is structurally well "
+             "formed. The real decoders are run on mutated encodings each run: outcome class and decoded structure are compared with the model, and the "
+             "oracle checks no panic, well-formedness, limits, canonical re-encoding and the measured allocation bound.",
+        note=NOTE_COMMON + "Partial: well-formedness/canonicity of decoded multi types and collections, and the real allocator, are decided per explored input.",
+    ),
 }
 
 _PENDING = "check not built yet in this session (work in progress; see DESIGN.md §9 build order)"
